@@ -572,4 +572,81 @@ def runOps : Buffers → List ROp → List Buffers
   | b, .render k :: r => b :: runOps (clearBuffers k b) r
   | b, .renderDynamic :: r => b :: runOps b r
 
+/-! ### what is on the AXES (mp_renderer.py remove_dynamic 239-252, render_dynamic 254-285, render_static 287-299,
+render 301-329, create_video 331-420)
+
+The buffers above are what a show *hands* to matplotlib; what the figure displays is what is on the axes afterwards.
+`render_dynamic()` first re-adds every artist registered in `dynamic_artists` (an artist already on the axes is the same
+object, displayed once), then wraps `obstacle_patches` in ONE new `PatchCollection`, adds it to the axes and registers it
+(`dynamic_artists = artist_list`, the list that ends with the new collection).  `remove_dynamic()` takes exactly the
+registered artists off the axes, `clear()` empties the registration list WITHOUT touching the axes, `ax.cla()` (first
+statement of `render`, `ax.clear()` at the start of `create_video`) empties the axes without touching the registrations.
+Only the obstacle patch collections are modelled (identity = the number of the show that created them). -/
+
+abbrev PatchCol := List (List Item)
+
+structure Rend where
+  buf : Buffers
+  /-- obstacle patch collections on the axes, in the order they were added -/
+  axes : List (Nat × PatchCol)
+  /-- the obstacle patch collections registered in `dynamic_artists` -/
+  dyn : List (Nat × PatchCol)
+  /-- number of patch collections created so far -/
+  next : Nat
+  deriving Repr
+
+def Rend.init : Rend := ⟨⟨[], 0⟩, [], [], 0⟩
+
+def Rend.registered (s : Rend) (i : Nat) : Bool := s.dyn.any (fun c => c.1 == i)
+
+/-- `ax.add_artist` / `ax.add_collection` of an artist: an object already on the axes is displayed once -/
+def addArtist (ax : List (Nat × PatchCol)) (c : Nat × PatchCol) : List (Nat × PatchCol) :=
+  if ax.any (fun d => d.1 == c.1) then ax else ax ++ [c]
+
+def Rend.renderDynamic (s : Rend) : Rend :=
+  { s with axes := s.dyn.foldl addArtist s.axes ++ [(s.next, s.buf.patches)],
+           dyn := s.dyn ++ [(s.next, s.buf.patches)], next := s.next + 1 }
+
+def Rend.removeDynamic (s : Rend) : Rend := { s with axes := s.axes.filter (fun c => !s.registered c.1) }
+
+def Rend.clear (k : Bool) (s : Rend) : Rend := { s with buf := clearBuffers k s.buf, dyn := [] }
+
+def Rend.cla (s : Rend) : Rend := { s with axes := [] }
+
+inductive AOp where
+  | draw (fr : Frame)
+  | clear (keep : Bool)
+  | render (keep : Bool)
+  | renderDynamic
+  | renderStatic
+  | removeDynamic
+  | cla
+  deriving Repr
+
+def stepA : Rend → AOp → Rend
+  | s, .draw fr => { s with buf := fr.draw s.buf }
+  | s, .clear k => s.clear k
+  | s, .render k => (s.cla.renderDynamic).clear k      -- cla; render_static; render_dynamic; clear(keep)
+  | s, .renderDynamic => s.renderDynamic
+  | s, .renderStatic => s                              -- static collections are not obstacle patches
+  | s, .removeDynamic => s.removeDynamic
+  | s, .cla => s.cla
+
+def AOp.shows : AOp → Bool
+  | .render _ => true
+  | .renderDynamic => true
+  | _ => false
+
+/-- the obstacle patch collections on the axes after every `render` / `render_dynamic` of a history -/
+def runAxes : Rend → List AOp → List (List (Nat × PatchCol))
+  | _, [] => []
+  | s, op :: r => if op.shows then (stepA s op).axes :: runAxes (stepA s op) r else runAxes (stepA s op) r
+
+/-- `create_video`'s `update(frame)`: `remove_dynamic(); clear(); draw_list(...); render_dynamic()` -/
+def videoFrame (ds : List Frame) : List AOp := [.removeDynamic, .clear false] ++ ds.map AOp.draw ++ [.renderDynamic]
+
+/-- `create_video`: `ax.clear()`, `init_frame` (`draw_list(...); render_static()`), then one `update` per frame -/
+def videoOps (init : List Frame) (frames : List (List Frame)) : List AOp :=
+  [.cla] ++ init.map AOp.draw ++ [.renderStatic] ++ frames.flatMap videoFrame
+
 end CR.Draw
